@@ -1,6 +1,507 @@
-//! C29 — not implemented yet.
+//! C29 — No SQL input crashes or hangs the engine.
+//!
+//! Every statement is executed in a *worker sub-process* (crash isolation: a
+//! stack overflow or abort kills the worker, not the check). The parent keeps
+//! one long-lived worker per runner thread, speaks a line protocol with it and
+//! enforces a per-statement watchdog; a worker that dies or stalls is
+//! respawned and the statement is re-run alone in a fresh worker with a much
+//! larger budget before anything is reported.
+//!
+//! Sources of text: (1) grammar-generated valid statements, (2) the same,
+//! *damaged* at token level (delete / duplicate / swap / splice), (3) hostile
+//! shapes (deep nesting of parentheses, NOT, CASE, subqueries, long IN lists,
+//! long AND/OR chains, huge LIMIT/OFFSET, megabyte literals, unusual tokens),
+//! (4) every SQL string harvested from the repository's own tests and sources
+//! (`corpus/sql_corpus.txt`) and the 22 TPC-H queries, plain and damaged.
+//! The schema: generated small tables r/s/u plus the TPC-H tables at SF 0.001.
+//!
+//! Oracle: the call returns Ok/Err — never a panic (caught in the worker and
+//! reported with its message/location), never a worker death (abort, stack
+//! overflow, OOM kill), never a hang (10 s watchdog, confirmed alone with 90 s).
 use super::Property;
+use crate::data::*;
+use crate::runner::*;
+use crate::sqlgen::*;
+use proptest::prelude::*;
+use serde::{Deserialize, Serialize};
+use std::cell::RefCell;
+use std::io::{BufRead, BufReader, Write};
+use std::process::{Child, Command, Stdio};
+use std::sync::mpsc::{channel, Receiver};
+use std::time::Duration;
+
+#[derive(Clone, Debug, Serialize, Deserialize)]
+pub struct CrashCase {
+    pub tables: Vec<Table>,
+    pub sql: String,
+    pub source: String,
+}
+
+// ---------------------------------------------------------------------------
+// worker side
+// ---------------------------------------------------------------------------
+
+static LAST_PANIC: std::sync::Mutex<String> = std::sync::Mutex::new(String::new());
+
+pub fn worker(_args: &[String]) {
+    std::panic::set_hook(Box::new(|info| {
+        let loc = info.location().map(|l| format!("{}:{}", l.file(), l.line())).unwrap_or_default();
+        let msg = if let Some(s) = info.payload().downcast_ref::<&str>() {
+            s.to_string()
+        } else if let Some(s) = info.payload().downcast_ref::<String>() {
+            s.clone()
+        } else {
+            "non-string payload".into()
+        };
+        *LAST_PANIC.lock().unwrap() = format!("{} @ {}", msg, loc);
+    }));
+    let stdin = std::io::stdin();
+    let mut out = std::io::stdout();
+    let mut ctx: Option<(u64, query_engine::ExecutionContext)> = None;
+    for line in stdin.lock().lines() {
+        let line = match line {
+            Ok(l) => l,
+            Err(_) => break,
+        };
+        let req: serde_json::Value = match serde_json::from_str(&line) {
+            Ok(v) => v,
+            Err(_) => continue,
+        };
+        let tables: Vec<Table> = serde_json::from_value(req["tables"].clone()).unwrap_or_default();
+        let sql = req["sql"].as_str().unwrap_or("").to_string();
+        let key = hash_json(&req["tables"]);
+        if ctx.as_ref().map(|(k, _)| *k != key).unwrap_or(true) {
+            let mut c = query_engine::ExecutionContext::new();
+            // TPC-H tables at a tiny scale so harvested queries reach execution
+            let mut g = query_engine::tpch::TpchGenerator::new(0.001);
+            g.generate_all(&mut c);
+            for t in &tables {
+                crate::engine::register_mem(&mut c, t, &[t.rows.len() / 2]);
+            }
+            ctx = Some((key, c));
+        }
+        let c = &ctx.as_ref().unwrap().1;
+        *LAST_PANIC.lock().unwrap() = String::new();
+        let r = std::panic::catch_unwind(std::panic::AssertUnwindSafe(|| crate::engine::block_on(c.sql(&sql))));
+        let reply = match r {
+            Ok(Ok(q)) => serde_json::json!({"status": "ok", "rows": q.row_count}),
+            Ok(Err(e)) => {
+                let m = e.to_string();
+                let class = m.split(':').next().unwrap_or("").chars().take(40).collect::<String>();
+                // a panic on an engine thread that the engine converted into an error
+                let lp = LAST_PANIC.lock().unwrap().clone();
+                if lp.is_empty() {
+                    serde_json::json!({"status": "err", "class": class})
+                } else {
+                    serde_json::json!({"status": "panic", "msg": lp, "surfaced_as": class})
+                }
+            }
+            Err(_) => serde_json::json!({"status": "panic", "msg": LAST_PANIC.lock().unwrap().clone()}),
+        };
+        let _ = writeln!(out, "{}", reply);
+        let _ = out.flush();
+    }
+}
+
+// ---------------------------------------------------------------------------
+// parent side: worker handles
+// ---------------------------------------------------------------------------
+
+struct Handle {
+    child: Child,
+    rx: Receiver<String>,
+}
+impl Handle {
+    fn spawn() -> Handle {
+        let exe = std::env::current_exe().expect("current_exe");
+        let mut child = Command::new(exe)
+            .args(["--worker", "c29"])
+            .stdin(Stdio::piped())
+            .stdout(Stdio::piped())
+            .stderr(Stdio::null())
+            .spawn()
+            .expect("spawn worker");
+        let stdout = child.stdout.take().unwrap();
+        let (tx, rx) = channel();
+        std::thread::spawn(move || {
+            for l in BufReader::new(stdout).lines() {
+                match l {
+                    Ok(l) => {
+                        if tx.send(l).is_err() {
+                            break;
+                        }
+                    }
+                    Err(_) => break,
+                }
+            }
+        });
+        Handle { child, rx }
+    }
+    /// Ok(reply json) | Err("died") | Err("timeout")
+    fn ask(&mut self, c: &CrashCase, timeout: Duration) -> Result<serde_json::Value, &'static str> {
+        let req = serde_json::json!({"tables": c.tables, "sql": c.sql});
+        let stdin = self.child.stdin.as_mut().unwrap();
+        if writeln!(stdin, "{}", req).is_err() || stdin.flush().is_err() {
+            return Err("died");
+        }
+        match self.rx.recv_timeout(timeout) {
+            Ok(l) => serde_json::from_str(&l).map_err(|_| "died"),
+            Err(std::sync::mpsc::RecvTimeoutError::Timeout) => Err("timeout"),
+            Err(std::sync::mpsc::RecvTimeoutError::Disconnected) => Err("died"),
+        }
+    }
+    fn kill(&mut self) {
+        let _ = self.child.kill();
+        let _ = self.child.wait();
+    }
+}
+impl Drop for Handle {
+    fn drop(&mut self) {
+        self.kill();
+    }
+}
+
+thread_local! {
+    static WORKER: RefCell<Option<Handle>> = const { RefCell::new(None) };
+}
+
+fn run_in_worker(c: &CrashCase, timeout: Duration) -> Result<serde_json::Value, &'static str> {
+    WORKER.with(|w| {
+        let mut w = w.borrow_mut();
+        if w.is_none() {
+            *w = Some(Handle::spawn());
+        }
+        let r = w.as_mut().unwrap().ask(c, timeout);
+        if r.is_err() {
+            // dead or stalled: never reuse it
+            *w = None;
+        }
+        r
+    })
+}
+
+fn run_alone(c: &CrashCase, timeout: Duration) -> (Result<serde_json::Value, &'static str>, Option<i32>) {
+    let mut h = Handle::spawn();
+    let r = h.ask(c, timeout);
+    let code = if r.is_err() {
+        std::thread::sleep(Duration::from_millis(50));
+        h.child.try_wait().ok().flatten().and_then(|s| {
+            use std::os::unix::process::ExitStatusExt;
+            s.signal().map(|x| -x).or(s.code())
+        })
+    } else {
+        None
+    };
+    (r, code)
+}
+
+// ---------------------------------------------------------------------------
+// known findings (panic signatures)
+// ---------------------------------------------------------------------------
+
+/// (id, substrings that must ALL occur in "message @ file:line") — file names,
+/// not line numbers, so unrelated edits do not move a signature.
+pub const PANIC_SIGS: &[(&str, &[&str])] = &[
+    // SpillableHashJoin probe indexes build_key_arrays with a stale build-batch id
+    // (seen with an IN/EXISTS subquery predicate above a join)
+    ("panic-hashjoin-probe-index-oob", &["index out of bounds", "src/physical/operators/hash_join.rs"]),
+];
+
+fn classify_panic(msg: &str) -> Option<&'static str> {
+    PANIC_SIGS.iter().find(|(_, pats)| pats.iter().all(|p| msg.contains(p))).map(|(id, _)| *id)
+}
+
+/// depth of directly nested EXISTS( … EXISTS( … )) in the text
+fn exists_nesting(sql: &str) -> usize {
+    sql.to_uppercase().matches("EXISTS (SELECT").count().max(sql.to_uppercase().matches("EXISTS(SELECT").count())
+}
+
+// ---------------------------------------------------------------------------
+// generators
+// ---------------------------------------------------------------------------
+
+fn tokens(sql: &str) -> Vec<String> {
+    let mut out = vec![];
+    let mut cur = String::new();
+    let mut in_str = false;
+    for ch in sql.chars() {
+        if in_str {
+            cur.push(ch);
+            if ch == '\'' {
+                in_str = false;
+                out.push(std::mem::take(&mut cur));
+            }
+            continue;
+        }
+        if ch == '\'' {
+            if !cur.is_empty() {
+                out.push(std::mem::take(&mut cur));
+            }
+            cur.push(ch);
+            in_str = true;
+        } else if ch.is_alphanumeric() || ch == '_' || ch == '.' {
+            cur.push(ch);
+        } else {
+            if !cur.is_empty() {
+                out.push(std::mem::take(&mut cur));
+            }
+            if !ch.is_whitespace() {
+                out.push(ch.to_string());
+            }
+        }
+    }
+    if !cur.is_empty() {
+        out.push(cur);
+    }
+    out
+}
+
+const SPLICE: &[&str] = &[
+    "(", ")", ",", "SELECT", "FROM", "WHERE", "GROUP BY", "ORDER BY", "HAVING", "JOIN", "ON", "UNION", "ALL", "NOT", "NULL", "IN", "EXISTS", "AND", "OR",
+    "CASE", "WHEN", "THEN", "END", "AS", "*", "-", "/", "%", "0", "-1", "9223372036854775808", "1e400", "''", "'", "\"", ";", "--", "/*", "OVER", "PARTITION BY",
+    "ROWS BETWEEN", "LIMIT", "OFFSET", "DISTINCT", "nosuch", "r.nosuch", "COUNT(", "SUM(DISTINCT", "CAST(", "AS BIGINT)", "INTERVAL '1' DAY", "DATE 'x'", "[1,2]", "::", "||",
+    "LATERAL", "WITH RECURSIVE", "VALUES", "GROUPING SETS", "ROLLUP", "CUBE", "NULLS FIRST", "LIKE", "ESCAPE", "BETWEEN", "IS", "TRUE", "\u{0}", "é", "\u{202e}",
+];
+
+fn damage(sql: &str, t: &mut Tape) -> String {
+    let mut toks = tokens(sql);
+    let n = 1 + t.pick(4);
+    for _ in 0..n {
+        if toks.is_empty() {
+            break;
+        }
+        let i = t.pick(toks.len());
+        match t.pick(6) {
+            0 => {
+                toks.remove(i);
+            }
+            1 => {
+                let x = toks[i].clone();
+                toks.insert(i, x);
+            }
+            2 => {
+                let j = t.pick(toks.len());
+                toks.swap(i, j);
+            }
+            3 => toks.insert(i, SPLICE[t.pick(SPLICE.len())].to_string()),
+            4 => toks[i] = SPLICE[t.pick(SPLICE.len())].to_string(),
+            _ => toks.truncate(i),
+        }
+    }
+    toks.join(" ")
+}
+
+fn hostile(t: &mut Tape) -> String {
+    let depth_choices = [3usize, 17, 60, 150, 400, 1200, 5000];
+    let d = depth_choices[t.pick(depth_choices.len())];
+    match t.pick(14) {
+        0 => format!("SELECT {}1{} FROM r", "(".repeat(d), ")".repeat(d)),
+        1 => format!("SELECT * FROM r WHERE {} a = 1", "NOT ".repeat(d)),
+        2 => format!("SELECT {} 1 {} FROM r", "CASE WHEN a = 1 THEN ".repeat(d.min(1500)), "ELSE 0 END ".repeat(d.min(1500))),
+        3 => {
+            let mut s = String::from("SELECT a FROM r");
+            for _ in 0..d.min(300) {
+                s = format!("SELECT a FROM ({}) AS x", s);
+            }
+            s
+        }
+        4 => format!("SELECT * FROM r WHERE a IN ({})", (0..d.min(5000)).map(|i| i.to_string()).collect::<Vec<_>>().join(",")),
+        5 => format!("SELECT * FROM r WHERE {}", (0..d.min(3000)).map(|i| format!("a = {}", i)).collect::<Vec<_>>().join(if t.chance(50) { " OR " } else { " AND " })),
+        6 => format!("SELECT * FROM r ORDER BY a LIMIT {} OFFSET {}", ["0", "18446744073709551615", "9223372036854775807", "-1", "1e10", "NULL"][t.pick(6)], ["0", "18446744073709551615", "-5", "9223372036854775807"][t.pick(4)]),
+        7 => format!("SELECT '{}' FROM r", "x".repeat([10usize, 1000, 100_000, 2_000_000][t.pick(4)])),
+        8 => {
+            let mut s = String::from("a");
+            for _ in 0..d.min(2000) {
+                s = format!("({} + 1)", s);
+            }
+            format!("SELECT {} FROM r", s)
+        }
+        9 => format!("SELECT a FROM r WHERE a = (SELECT {} a FROM r AS q LIMIT 1)", "(SELECT ".repeat(0)),
+        10 => {
+            let mut s = String::from("SELECT 1");
+            // planning time grows ~2.3x per nesting level (open finding
+            // nested-exists-exponential-time, witness = 17 levels): generated cases stay
+            // at <= 5 levels so that one statement does not eat the whole budget
+            for _ in 0..d.min(5) {
+                s = format!("SELECT 1 WHERE EXISTS ({})", s);
+            }
+            s
+        }
+        11 => (0..d.min(600)).map(|_| "SELECT a FROM r".to_string()).collect::<Vec<_>>().join(" UNION ALL "),
+        12 => format!("WITH {} SELECT * FROM c0", (0..d.min(300)).map(|i| format!("c{} AS (SELECT a FROM {})", i, if i + 1 < d.min(300) { format!("c{}", i + 1) } else { "r".into() })).collect::<Vec<_>>().join(", ")),
+        _ => format!("SELECT {} FROM r", (0..d.min(3000)).map(|i| format!("a AS c{}", i)).collect::<Vec<_>>().join(", ")),
+    }
+}
+
+fn corpus() -> &'static Vec<String> {
+    static C: std::sync::OnceLock<Vec<String>> = std::sync::OnceLock::new();
+    C.get_or_init(|| {
+        let mut v: Vec<String> = include_str!("../../corpus/sql_corpus.txt").lines().map(|s| s.to_string()).filter(|s| !s.trim().is_empty()).collect();
+        for q in 1..=22 {
+            if let Some(s) = query_engine::tpch::get_query(q) {
+                v.push(s.to_string());
+            }
+        }
+        v
+    })
+}
+
+fn case_strategy() -> BoxedStrategy<CrashCase> {
+    let mut tp = TableProfile::default();
+    tp.max_rows = 6;
+    tp.min_tables = 3;
+    (tables_strategy(tp), proptest::collection::vec(any::<u16>(), 0..260))
+        .prop_map(|(tables, tape)| {
+            let mut t = Tape::new(tape.clone());
+            let kind = t.pick(10);
+            let rest: Vec<u16> = tape.iter().skip(1).copied().collect();
+            let (sql, source) = match kind {
+                0 | 1 | 2 => {
+                    let mut p = Profile::full();
+                    p.semi_anti_joins = true;
+                    let cat = Catalog::of(&tables);
+                    let mut g = Gen::new(rest, &p);
+                    let (q, _) = g.query(&cat, 2);
+                    (q.sql(), "generated")
+                }
+                3 | 4 | 5 => {
+                    let p = Profile::full();
+                    let cat = Catalog::of(&tables);
+                    let mut g = Gen::new(rest, &p);
+                    let (q, _) = g.query(&cat, 2);
+                    (damage(&q.sql(), &mut t), "generated_damaged")
+                }
+                6 => (hostile(&mut t), "hostile"),
+                7 => {
+                    let c = corpus();
+                    (c[t.pick(c.len())].clone(), "corpus")
+                }
+                _ => {
+                    let c = corpus();
+                    let s = c[t.pick(c.len())].clone();
+                    (damage(&s, &mut t), "corpus_damaged")
+                }
+            };
+            CrashCase { tables, sql, source: source.to_string() }
+        })
+        .boxed()
+}
+
+pub struct NoCrash;
+impl Check for NoCrash {
+    type Case = CrashCase;
+    fn name(&self) -> &'static str {
+        "no_crash_no_hang"
+    }
+    fn rule(&self) -> &'static str {
+        "the statement got past the parser (the engine answered Ok, or failed with a non-parse error class)"
+    }
+    fn cases(&self, tier: Tier) -> u32 {
+        tier.pick(6000, 400_000)
+    }
+    fn workers(&self, _t: Tier) -> usize {
+        12
+    }
+    fn max_shrink_iters(&self) -> u32 {
+        200
+    }
+    fn exhaustive(&self, _t: Tier) -> Option<Box<dyn Iterator<Item = CrashCase> + '_>> {
+        // the whole harvested corpus, undamaged, every run
+        let tables = vec![
+            Table { name: "r".into(), cols: vec![Column { name: "a".into(), ty: ColType::Int }, Column { name: "b".into(), ty: ColType::Str }], rows: vec![vec![Value::Int(1), Value::Str("x".into())], vec![Value::Null, Value::Null]] },
+            Table { name: "s".into(), cols: vec![Column { name: "a".into(), ty: ColType::Int }, Column { name: "b".into(), ty: ColType::Double }], rows: vec![vec![Value::Int(1), Value::Double(0.5)]] },
+            Table { name: "u".into(), cols: vec![Column { name: "a".into(), ty: ColType::Date }, Column { name: "b".into(), ty: ColType::Bool }], rows: vec![] },
+        ];
+        Some(Box::new(corpus().iter().map(move |s| CrashCase { tables: tables.clone(), sql: s.clone(), source: "corpus".into() })))
+    }
+    fn strategy(&self, _tier: Tier) -> BoxedStrategy<CrashCase> {
+        case_strategy()
+    }
+    fn test(&self, c: &CrashCase, obs: &mut Obs) -> Verdict {
+        obs.label(format!("source:{}", c.source));
+        obs.sample(serde_json::json!({"source": c.source, "sql": c.sql.chars().take(300).collect::<String>()}));
+        let first = run_in_worker(c, Duration::from_secs(10));
+        let reply = match first {
+            Ok(r) => r,
+            Err(kind) => {
+                // confirm alone, fresh process, generous budget
+                let (again, code) = run_alone(c, Duration::from_secs(90));
+                match again {
+                    Ok(r) => {
+                        obs.label(format!("unconfirmed_{}", kind));
+                        r
+                    }
+                    Err("timeout") if exists_nesting(&c.sql) >= 12 => {
+                        return Verdict::Known {
+                            id: "nested-exists-exponential-time".into(),
+                            msg: format!("HANG: {} nested EXISTS subqueries did not finish within 90 s (time roughly x2.3 per level)", exists_nesting(&c.sql)),
+                        }
+                    }
+                    Err("timeout") => {
+                        return Verdict::Fail(format!(
+                            "HANG: no answer within 90 s when run alone in a fresh process (first attempt: {})\n sql ({} chars): {}",
+                            kind,
+                            c.sql.len(),
+                            c.sql.chars().take(2000).collect::<String>()
+                        ))
+                    }
+                    Err(_) => {
+                        let how = match code {
+                            Some(-11) => "SIGSEGV (stack overflow)".to_string(),
+                            Some(-6) => "SIGABRT".to_string(),
+                            Some(-9) => "SIGKILL".to_string(),
+                            Some(x) => format!("exit status/signal {}", x),
+                            None => "unknown".into(),
+                        };
+                        let msg = format!(
+                            "CRASH: the worker process died ({}) executing this statement alone\n sql ({} chars): {}",
+                            how,
+                            c.sql.len(),
+                            c.sql.chars().take(2000).collect::<String>()
+                        );
+                        let sig = format!("process-death:{}", how);
+                        return match classify_panic(&sig) {
+                            Some(id) => Verdict::Known { id: id.into(), msg },
+                            None => Verdict::Fail(msg),
+                        };
+                    }
+                }
+            }
+        };
+        match reply["status"].as_str().unwrap_or("") {
+            "ok" => {
+                obs.label("stage:executed");
+                obs.nontrivial(true);
+                Verdict::Pass
+            }
+            "err" => {
+                let class = reply["class"].as_str().unwrap_or("").to_string();
+                let parse = class.to_lowercase().contains("pars") || class.to_lowercase().contains("sql");
+                obs.label(format!("err:{}", class));
+                obs.nontrivial(!parse);
+                Verdict::Pass
+            }
+            "panic" => {
+                let m = reply["msg"].as_str().unwrap_or("").to_string();
+                let msg = format!("PANIC: {}\n sql ({} chars): {}", m, c.sql.len(), c.sql.chars().take(2000).collect::<String>());
+                match classify_panic(&m) {
+                    Some(id) => Verdict::Known { id: id.into(), msg },
+                    None => Verdict::Fail(msg),
+                }
+            }
+            other => Verdict::Fail(format!("worker protocol error: {:?}", other)),
+        }
+    }
+}
 
 pub fn property() -> Property {
-    Property { id: "C29", level: "exploration", assumptions: &[], checks: vec![] }
+    Property {
+        id: "C29",
+        level: "exploration",
+        assumptions: &[
+            "a hang is only reported after the statement also exceeds 90 s alone in a fresh process on tables of <= 6 rows + TPC-H SF 0.001",
+            "engine panics are observed through a panic hook in the worker (also when the engine converted a panic on one of its threads into an error)",
+        ],
+        checks: vec![Box::new(NoCrash)],
+    }
 }
